@@ -37,5 +37,6 @@ ExpectedFor(doc, tr, ms, elemH, docH, i) ==
 \* end-tag handlers at end tag item i: one per (closed element, element handler that matched it), as a bag
 \* (the order among handlers of different elements closed by one end tag is not constrained)
 EndTagBag(doc, tr, ms, elemH, i) ==
-  UNION {{<<e, h>> : h \in {x \in 1..Len(elemH) : elemH[x].el /\ e \in ms[x]}} : e \in Closed(doc, tr, i)}
+  \* (an optional field et = FALSE says that this element handler registers no end-tag handler)
+  UNION {{<<e, h>> : h \in {x \in 1..Len(elemH) : elemH[x].el /\ e \in ms[x] /\ ("et" \notin DOMAIN elemH[x] \/ elemH[x].et)}} : e \in Closed(doc, tr, i)}
 =============================================================================
